@@ -25,6 +25,8 @@ pub(crate) fn local_channel<T: ExchangeData>(
         NetworkReceiver {
             receiver_endpoint,
             receiver,
+            #[cfg(feature = "verif")]
+            verif_observe: crate::verif::observe::received::<T>,
         },
     )
 }
@@ -56,6 +58,10 @@ pub(crate) struct NetworkReceiver<In: Send + 'static> {
     /// The actual receiver where the users of this struct will wait upon.
     #[derivative(Debug = "ignore")]
     receiver: Receiver<NetworkMessage<In>>,
+    /// Reports every received batch to the verification runtime.
+    #[cfg(feature = "verif")]
+    #[derivative(Debug = "ignore")]
+    verif_observe: fn(ReceiverEndpoint, &NetworkMessage<In>),
 }
 
 impl<In: Send + 'static> NetworkReceiver<In> {
@@ -65,6 +71,8 @@ impl<In: Send + 'static> NetworkReceiver<In> {
         message: Result<NetworkMessage<In>, E>,
     ) -> Result<NetworkMessage<In>, E> {
         message.map(|message| {
+            #[cfg(feature = "verif")]
+            (self.verif_observe)(self.receiver_endpoint, &message);
             get_profiler().items_in(
                 message.sender,
                 self.receiver_endpoint.coord,
@@ -72,6 +80,12 @@ impl<In: Send + 'static> NetworkReceiver<In> {
             );
             message
         })
+    }
+
+    /// Report a message obtained outside `profile_message` to the verification runtime.
+    #[cfg(feature = "verif")]
+    pub(crate) fn verif_seen(&self, message: &NetworkMessage<In>) {
+        (self.verif_observe)(self.receiver_endpoint, message);
     }
 
     /// Receive a message from any sender.
@@ -98,6 +112,9 @@ impl<In: Send + 'static> NetworkReceiver<In> {
         &self,
         other: &NetworkReceiver<In2>,
     ) -> SelectResult<NetworkMessage<In>, NetworkMessage<In2>> {
+        #[cfg(feature = "verif")]
+        return crate::verif::observe::selected(self, other, self.receiver.select(&other.receiver));
+        #[cfg(not(feature = "verif"))]
         self.receiver.select(&other.receiver)
     }
 
@@ -107,6 +124,12 @@ impl<In: Send + 'static> NetworkReceiver<In> {
         other: &NetworkReceiver<In2>,
         timeout: Duration,
     ) -> Result<SelectResult<NetworkMessage<In>, NetworkMessage<In2>>, RecvTimeoutError> {
+        #[cfg(feature = "verif")]
+        return self
+            .receiver
+            .select_timeout(&other.receiver, timeout)
+            .map(|r| crate::verif::observe::selected(self, other, r));
+        #[cfg(not(feature = "verif"))]
         self.receiver.select_timeout(&other.receiver, timeout)
     }
 }
@@ -134,6 +157,8 @@ enum SenderInner<Out: Send + 'static> {
 
 impl<Out: ExchangeData> NetworkSender<Out> {
     pub fn send(&self, message: NetworkMessage<Out>) -> Result<(), NetworkSendError> {
+        #[cfg(feature = "verif")]
+        crate::verif::observe::sent(self.receiver_endpoint, &message);
         get_profiler().items_out(
             message.sender,
             self.receiver_endpoint.coord,
